@@ -217,6 +217,27 @@ def burst_part(r, tier):
                           % (version - 2, version - 1, seq[0].count("made()"), seq[1][:60]))
                 v.violation("burst%d" % k, msg, replay)
                 break
+        # the document is closed and opened again: the editor starts counting versions from 1 again, and the first
+        # change after that (version 2) is the latest content like any other
+        if not v.violations:
+            bad = "def test_o():\n    made()\n"
+            good = "def test_o(made):\n    made()\n"
+            c.change("gen/test_g.py", bad, version=version); version += 1
+            c.change("gen/test_g.py", small, version=version + 5)
+            c.close("gen/test_g.py")
+            time.sleep(0.2)
+            c.open("gen/test_g.py", bad, version=1)
+            try:
+                last = c.change("gen/test_g.py", good, version=2)
+            except lsp.NoPublish:
+                last = list(c.diagnostics.get(u, []))
+            got = len([d for d in last if (d.get("code") or "") == "undeclared-fixture"])
+            nburst += 1
+            if got != 0:
+                msg = ("re-open: gen/test_g.py was changed up to version %d, closed, opened again (version 1, one undeclared use) and changed "
+                       "(version 2: the fixture is now a parameter); the client's last publishDiagnostics still holds %d undeclared-fixture "
+                       "finding(s) - the change after the re-open was not taken for the latest content" % (version + 5, got))
+                v.violation("reopen", msg, "# " + msg + "\n")
     except (lsp.ServerDied, lsp.Timeout) as e:
         msg = f"burst part: {e}"
         v.violation("burst-died", msg, "# " + msg + "\n")
